@@ -85,6 +85,9 @@ def run(tier, seed, replay=None):
         if got != want:
             k = next((j for j in range(min(len(got), len(want))) if got[j] != want[j]), min(len(got), len(want)))
             tr_bad.append({"input": l, "first_diff_line": k, "impl": got[k:k + 2], "model": want[k:k + 2]})
+    # (d) trace entries vs the call sequence of the source (differential only; not proved)
+    import c15d
+    cs = c15d.call_sequence_check(tier, seed, C.Rng(seed * 31 + 7))
     rep.coverage.update({
         "obligations": info.get("obligations", 0), "discharged": info.get("discharged", 0),
         "checker_cmd": "cd lean && lake build HexVerif.Properties.C15 && #print axioms",
@@ -100,7 +103,10 @@ def run(tier, seed, replay=None):
         "symbols_per_program_histogram": {str(k): v for k, v in sorted(nsyms.items())},
         "trace_lines_compared": nlines, "symbol_table_failures": len(sym_bad), "trace_mismatches": len(tr_bad),
         "model_vs_impl_mismatches": len(mism),
+        "call_sequence_check": {k: v for k, v in cs.items() if k != "mismatches"},
     })
+    if cs.get("mismatches"):
+        rep.violation("calls", dict(cs["mismatches"][0], seed=seed, clause="(d) trace entries = call sequence"))
     if sym_bad:
         rec, c = sym_bad[0]
         rep.violation("symbols", {"source_hex": rec["src"].hex(), "source": rec["src"].decode("latin1"), "oracle": c,
